@@ -37,12 +37,14 @@ void PolarGrid::RadialAnisotropicDivision(std::vector<double>& r_temp, const dou
     int se;
 
     // Added by Allan Kuhn to fix a memory error
-    if (floor(nr * percentage) > nr - (n_elems_refined / 2)) {
-        int new_aniso   = log2(nr - floor(nr * percentage)) + 1;
+    // The refinement is centered at a node of the uniform division (refinement radius equal to R: the last node).
+    const int center = std::min(static_cast<int>(floor(nr * percentage)), nr - 1);
+    if (center > nr - (n_elems_refined / 2)) {
+        int new_aniso   = log2(nr - center) + 1;
         n_elems_refined = pow(2, new_aniso);
     }
 
-    se     = floor(nr * percentage) - n_elems_refined / 2;
+    se     = center - n_elems_refined / 2;
     // The refinement window must not start before the first node (refinement radius close to R0).
     if (se < 0) {
         se = 0;
